@@ -128,11 +128,13 @@ theorem no_panic_counterexample : ¬ no_panic_statement := fun h => h 50 (some e
 
 /-! ### guards the VM establishes before a builtin runs -/
 
-/-- more arguments than the Go function has parameters: an error (`expected %d arguments, found %d`),
-before the stack is touched -/
-theorem arity_guard (code : List Instr) (fuel : Nat) (b : Builtin) (n : Nat) (st : St) (h : n > b.arity) :
+/-- more arguments than the (non-variadic) Go function has parameters: an error (`expected %d arguments,
+found %d`), before the stack is touched -/
+theorem arity_guard (code : List Instr) (fuel : Nat) (b : Builtin) (n : Nat) (st : St)
+    (hv : b.variadic = none) (h : n > b.arity) :
     callFromStack code (fuel + 1) (.builtin b) n st = .error .error := by
-  simp [callFromStack, h]
+  have hw : b.want n = b.arity := by simp [Builtin.want, Builtin.arity, hv]
+  simp [callFromStack, hw, h]
 
 /-- the Go type of a parameter, as a predicate on model values -/
 def hasTy : Ty → Val → Bool
